@@ -23,6 +23,9 @@ CHECKS = {
  "C06": dict(cat="exploration", tech="bounded-exhaustive enumeration of tables x serialisation options, checked by library round trip and by an independent FITS reader and writer",
    text="Every combination of dimension count 1..9 with pairwise different axis lengths, order pattern, seeded or extreme coefficient values (+-0, denormal, FLT_MAX, inf, NaN payload), default or custom extents, periods or none, 0/1/5/40 auxiliary keys and disk or memory back end is written and read back by the library (C++ and C), compared field by field, parsed by an independent reader that checks the documented layout byte for byte, and re-created by an independent writer that the library must read identically; legacy layouts (single ORDER key, no EXTENTS/PERIOD, integer and double coefficient images) and the ten shipped files (recorded digests) are included.",
    note="trusted: ref/fits_ref.hpp (independent of cfitsio); periods are compared to 1e-13 because cfitsio stores header doubles with 15 digits and the property does not list them as exact", ref="4/C06"),
+ "C08": dict(cat="fault_enumeration", tech="exhaustive single-fault and crash-prefix enumeration of the real writer's driver-operation history on an in-memory cfitsio I/O driver",
+   text="The real write_fits and cfitsio buffer layer run on an in-memory disk registered as a cfitsio driver; the logged operation history (10..400 driver calls for six table shapes from 6 to 300 FITS blocks, incl. header overflow) is the object of enumeration: every operation index x {immediate error, deferred error at flush/close, four short-write lengths} must be reported by an exception (C: non-zero) unless the complete file is on disk, and every crash prefix at operation granularity plus torn final writes at byte granularity (every byte for small files, sector and card edges for large ones) must be rejected or load equal through both the memory and the disk reader. The virtual disk is bound to reality by byte-identity with a real file and by RLIMIT_FSIZE runs of the real disk driver in forked children.",
+   note="trusted: the driver model (deferred errors modelled on stdio+ENOSPC), ref/fits_ref.hpp for file regions; single faults only; seek failures not injected", ref="4/C08", engine="fault"),
 }
 
 def cmd(pid, tier):
@@ -52,6 +55,8 @@ m = {"version": 1,
      "engines": [
          {"name": "enum", "path": "engine/vf.hpp + checks/run.py", "serves_properties": sorted(k for k, v in CHECKS.items() if v.get("engine", "enum") == "enum"),
           "kind_free_text": "mixed-radix bounded-exhaustive enumerator, sharded over cores, crash/timeout attribution per case, replay-before-report, known-findings filter"},
+         {"name": "fault", "path": "engine/vfs_driver.c + engine/vf.hpp + checks/run.py", "serves_properties": sorted(k for k, v in CHECKS.items() if v.get("engine") == "fault"),
+          "kind_free_text": "fault / crash-point enumerator over a recorded operation history (cfitsio custom I/O driver, mutation of FITS bytes, argument deviations)"},
      ],
      "checks": checks,
      "notes": "All checks rebuild their harness from /repo's working tree (make, mtime based). known_findings.txt lists open findings (KNOWN-FINDING lines) and fixed ones (fix: commits in /repo).",
